@@ -68,8 +68,8 @@ def read(V, w):
     return rp.ProtobufFileReader(data).open()
 
 
-def _mk(name, regime="normal"):
-    @obligation("C02", f"roundtrip.{name}.{regime}", functions=F, max_paths={"quick": 3000, "thorough": 20000},
+def _mk(name, regime="normal", tier="quick"):
+    @obligation("C02", f"roundtrip.{name}.{regime}", tier=tier, functions=F, max_paths={"quick": 3000, "thorough": 20000},
                 bounds=f"skeleton '{name}', all numeric / boolean leaves symbolic ({regime} magnitudes); exact equality of every real")
     def ob(V):
         warnings.filterwarnings("ignore")
@@ -94,6 +94,9 @@ for _n in xmlrt.SKELETONS:
         _mk(_n)
 for _n in ("static.rectangle", "dynamic.trajectory.KS", "planning.rectangle"):
     _mk(_n, "tiny")
+for _n in xmlrt.SKELETONS:
+    if _expressible(_n) and _n not in ("static.rectangle", "dynamic.trajectory.KS", "planning.rectangle"):
+        _mk(_n, "tiny", "thorough")
 
 
 # ---- clauses of C02 that go beyond C01 -------------------------------------------------------------------------
